@@ -34,7 +34,7 @@ tvars == <<l, compare, ref, refp>>
 RangeOf(s)  == {s[k] : k \in DOMAIN s}
 NoParams    == [none |-> TRUE]
 FromJson(P) == [P EXCEPT !.prefixes = RangeOf(@), !.nets = RangeOf(@)]
-Vec(e)      == [cli |-> e.cli, cfg |-> e.cfg]
+Vec(e)      == [cli |-> e.cli, cfg |-> e.cfg, sp |-> e.sp]
 Compared(e, v) == compare /\ Decision(v) = "Run" /\ e.outcome \in Normal /\ Comparable(v)
 
 RunVerdict(e) ==
